@@ -2,16 +2,17 @@
 # development helper: run every seeded mutant of a directory against its own property's quick check.
 # usage: tools_seeded.sh [dir=seeded] [binary=bin/ordalint] [extra property ids...]
 cd /verif
+REPO=${VERIF_REPO:-/repo}
 dir=${1:-seeded}; bin=${2:-bin/ordalint}; shift; shift
 for d in $dir/*/; do
   id=$(basename $d); prop=${id%-*}
-  git -C /repo apply /verif/$d/patch.diff 2>/dev/null || { echo "$id APPLY-FAILED"; continue; }
+  git -C $REPO apply /verif/$d/patch.diff 2>/dev/null || { echo "$id APPLY-FAILED"; continue; }
   res=""
   for c in $prop "$@"; do
-    out=$($bin -repo /repo -property $c -tier quick -evidence /tmp/ev_$c.json -known /verif/known_findings.json 2>&1); code=$?
+    out=$($bin -repo $REPO -property $c -tier quick -evidence /tmp/ev_$c.json -known /verif/known_findings.json 2>&1); code=$?
     rules=$(echo "$out" | grep -o 'violated: rule=[A-Z0-9.]*' | sed 's/violated: rule=//' | sort -u | tr '\n' ',')
     res="$res $c:exit=$code[$rules]"
   done
-  git -C /repo checkout -- .
+  git -C $REPO checkout -- .
   echo "$id$res"
 done
